@@ -61,8 +61,10 @@ class C15(Check):
         probes.install_step_recorder()
 
     def gen(self, rng: random.Random, tier: str, index: int) -> dict:
-        step = rng.choice([30, 60, 60, 120, 300, 600])
+        step = rng.choice([30, 60, 60, 120, 300, 600]) if rng.random() < 0.75 else rng.randrange(2, 901)
         n = rng.randrange(2, 7)
+        if rng.random() < 0.15:
+            n = rng.randrange(7, 31)      # how a boundary time rounds through Julian dates depends on the elapsed seconds: vary them widely
         start = gen.draw_start(rng, gen.EOP_FIRST, gen.EOP_LAST - dt.timedelta(days=2), whole_minute_p=0.3)
         orb = gen.draw_orbit(rng, rng.choice(["leo", "meo", "geo", "heo"]), emax=0.5)
         tgt = gen.eci_target(10001, orb["pos"], orb["vel"])
@@ -184,6 +186,7 @@ class C15(Check):
             # an impulse that coincides with a thrust boundary (or, to the resolution of Julian dates, with an epoch) can legitimately act just before or just after it: not judged
             fuzzy_imp = any(abs(ti - v) < 1e-3 for ti, _e in impulses for b3 in burns for v in b3[:2]) or any(0 < abs(ti / step - round(ti / step)) * step < 1e-3 for ti, _e in impulses)
             ref = {0: x0}
+            ref_before = {}
             x = x0.copy()
             for a, b in zip(cuts[:-1], cuts[1:]):
                 if b <= a:
@@ -191,13 +194,16 @@ class C15(Check):
                 on = next((e3 for (s3, t3, e3) in burns if a >= s3 - 1e-9 and b <= t3 + 1e-9), None)
                 sol = solve_ivp(rhs, (a, b), x, method="DOP853", rtol=1e-12, atol=1e-14, args=(on,))
                 x = sol.y[:, -1]
+                kk = round(b / step)
+                on_epoch = abs(kk * step - b) < 1e-9
                 for ti, e_imp in impulses:
-                    if abs(ti - b) < 1e-9:       # the velocity changes at this instant (a record at this very epoch carries it, see C01)
+                    if abs(ti - b) < 1e-9:       # the velocity changes at this instant
+                        if on_epoch:
+                            ref_before[kk] = x.copy()    # a record at this very epoch may or may not carry the delta-v yet (C01 accepts both)
                         dv_imp = np.array(e_imp["thrust_vector"], dtype=float)
                         x = x.copy()
                         x[3:] += dv_imp if e_imp["thrust_frame"] == "eci" else kepler.ntw_to_eci_matrix(x) @ dv_imp
-                kk = round(b / step)
-                if abs(kk * step - b) < 1e-9:
+                if on_epoch:
                     ref[kk] = x.copy()
             worst = 0.0
             if impulses:
@@ -213,6 +219,10 @@ class C15(Check):
                     continue
                 lp, lv = limits(k * step, got)
                 dp, dv = float(np.linalg.norm(got[:3] - ref[k][:3])), float(np.linalg.norm(got[3:] - ref[k][3:]))
+                if k in ref_before:
+                    dp2, dv2 = float(np.linalg.norm(got[:3] - ref_before[k][:3])), float(np.linalg.norm(got[3:] - ref_before[k][3:]))
+                    if max(dp2 / lp, dv2 / lv) < max(dp / lp, dv / lv):
+                        dp, dv = dp2, dv2
                 worst = max(worst, dp / lp, dv / lv)
                 if over(dp, lp) or over(dv, lv):
                     # how long did the engine really burn?  (ECI burns: delta-v / |a|)
